@@ -16,7 +16,7 @@ import random
 from . import _e1check
 
 PID, CORPUS = "C20", "pv.corpora.c20"
-BORROW = ["pv.corpora.c02", "pv.corpora.c04", "pv.corpora.c05", "pv.corpora.c06", "pv.corpora.c07", "pv.corpora.c03"]
+BORROW = ["pv.corpora.c20", "pv.corpora.c02", "pv.corpora.c04", "pv.corpora.c05", "pv.corpora.c06", "pv.corpora.c07", "pv.corpora.c03"]
 
 
 def _eqv(x, y):
